@@ -227,7 +227,10 @@ class Model(object):
 
         not_nan = np.where(~np.isnan(self.objval[:self.npt()]))[0]  # (argmin would select a NaN entry, nanargmin cannot tell NaN from inf)
         if len(not_nan) > 0:
-            self.kopt = not_nan[np.argmin(self.objval[not_nan])]  # make sure kopt is always the best value we have
+            kopt_new = not_nan[np.argmin(self.objval[not_nan])]  # make sure kopt is always the best value we have
+            if kopt_new != self.kopt:
+                self.factorisation_current = False  # interpolation matrix is built around xopt
+            self.kopt = kopt_new
         return
 
     def add_new_point(self, x, rvec, eval_num):
